@@ -257,6 +257,11 @@ class Env:
         self.ctx = ctx
         self.W = W
         self.d, self.p, self.s0 = C.lib_world(ctx, W, tag=tag)
+        if getattr(ctx, "api_made_type", False):
+            # a type added through the object API with the constructor's defaults (no parent): unused by any action,
+            # but part of the domain that every operation is handed
+            from pddl_plus_parser.models import PDDLType
+            self.d.types["zt-api"] = PDDLType("zt-api")
         self.locate_dir = locate_dir
         self.tag = tag
         # exporter objects that every client thread of this world uses (helpers are shared the way the domain is)
@@ -602,6 +607,7 @@ def run(ctx):
         raise Skip()
     nthreads = len(scripts)
     ddir = prepare_dir(ctx, W)
+    ctx.api_made_type = cfg.draw(4) == 0
     ctx.log("scripts", W.dom_text_plain, repr(scripts))
     # ---- (A) isolation baselines: each operation alone (with its dependency chain) in a freshly parsed world
     base = []
